@@ -3,11 +3,13 @@
    or one store action (Checkpoint, DeleteHist, Reopen).  Universe: 2-nibble keys over {0,1}; the genesis block holds
    {00,01,10} (extension/full root over a full node and a leaf); every block changes <= MaxTouch keys (fresh value,
    delete, or touch); every admissible prune round [base, target) at every point, targets aligned to the hist
-   partition factor or not; a re-open may ask for any partition factors (the persisted layout must win).
+   partition factor or not; a re-open may ask for any partition factors (the persisted layout must win); a crash
+   inside a round (CrashInCheckpoint: some tries checkpointed, one up to a point of the pre-order walk; CrashInDelete:
+   the partitions below some x deleted, base not advanced) followed by the same round again (ResumeCheckpoint).
 
    Measured (4 workers, this sandbox under load):
-     MC_NodeStore_quick.cfg     4 option sets (hf 1/2, df 1/2/max, hashed / hash-skipped), 3 blocks, no fork
-                                538 067 states generated / 100 358 distinct, depth 11, 30-60 s
+     MC_NodeStore_quick.cfg     2 option sets (hf 1 / df max / hashed, hf 2 / df 2 / hash-skipped), 3 blocks, no fork
+                                499 088 states generated / 127 348 distinct, depth 11, 35-45 s
      MC_NodeStore_thorough.cfg  hf 1, df max, 3 blocks + one fork block (minor versions)
                                 2 255 135 generated / 726 641 distinct, 2.5-10 min
      MC_NodeStore_matrix.cfg    18 option sets (hf 1/2/max x df 1/2/max x hashed/skipped), 3 blocks
@@ -18,8 +20,9 @@
    RetainedReadable, PrunedNeverDifferent, NoWrongNode, RootCanonical, PrunedUnreadable, LayoutPersistent hold in all
    of them (thorough / matrix numbers were measured before re-open options were added: more generated, same kind).
 
-   The invariants have teeth - each deliberately broken variant below is caught (MC_NodeStore_teeth_*.cfg, not run by
-   the check; `tlc -config MC_NodeStore_teeth_X.cfg MC_NodeStore.tla`):
+   The invariants have teeth - each deliberately broken variant below is caught (MC_NodeStore_teeth_*.cfg; check C12
+   runs them as must-be-violated steps: quick tier all but deepfork / rootcache / unaligned, thorough tier all; the
+   state counts are those of the first measurement and vary with the exploration order):
      rootdedup  root of a main trie may be served from the deduped space  -> PrunedUnreadable / PrunedNeverDifferent
                 violated after 3 206 states (a pruned root silently reads the checkpointed root's content)
      filter     checkpoint version filter  >= base  turned into  > base   -> RetainedReadable violated after 3 314 states
@@ -32,6 +35,10 @@
                                                                           -> RetainedReadable, 60 states
      unaligned  InFlightReads = TRUE with unaligned targets: a root of the half-deleted partition survives below the
                 target and reads through overwritten deduped nodes        -> PrunedNeverDifferent, 1 224 431 states
+     resume     Resumable: "a round that crashed can always be run again" is NOT an invariant of the design: after a
+                crash in (or right after) the range delete the main roots of block target-1 are gone from hist, the
+                checkpoint walk of the re-run fails, the persisted base never advances -> Resumable, 306 states
+                (observed on the real pruner by the crash cuts of cmd/prunee2e: "checkpoint tries: missing trie node")
      inflight   the guarantees are also demanded DURING a prune round (InFlightReads = TRUE)
                                                                           -> PrunedNeverDifferent, 544 638 states
    deepfork / rootcache show that the preconditions of CanPrune are needed (thor provides them through
